@@ -170,6 +170,9 @@ static const PmcConfig CFG[] = {
     {"m:pW,pP,pnpa", 2, {0,0}, {0,0}, {0,0}, {0,0}, ""},
     {"m:W|u",        2, {1,2}, {0,0}, {0,0}, {0,0}, "notification without the lock"},
     {"s:W,W|a",      2, {1,2}, {0,0}, {0,0}, {0,0}, ""},
+    {"m:T,W|N:tdev", 3, {1,2}, {1,1}, {0,0}, {2,3}, "the head waiter times out while the notifier is between reading the queue head and locking it: the next waiter must be woken"},
+    {"m:W,W|N|N",    3, {1,2}, {0,0}, {0,0}, {0,0}, "two notifiers on two vCPUs notify outside the lock at the same time: both waiters must be woken"},
+    {"s:W,W|N|N",    2, {1,2}, {0,0}, {0,0}, {0,0}, ""},
     {"m:gen3x1",     3, {0,0}, {0,0}, {0,0}, {0,0}, "generated: every 3-thread program with one op each from {W,T,N,A,h,n,a,u}, every arrival order"},
     {"s:gen3x1",     3, {0,0}, {0,0}, {0,0}, {0,0}, ""},
     {"m:gen4x1",     2, {0,0}, {0,0}, {0,0}, {0,0}, ""},
